@@ -34,7 +34,7 @@ func truncate(s string, n int) string {
 	return s
 }
 
-var c17Families = []string{"lr", "lr2", "expr", "expr4", "mutual", "mutual3", "hidden", "brackets", "seplist", "rightrec", "exprparen", "tower4", "tower5", "tower6", "hiddenmany", "hiddensepby", "hiddenopts", "hidden2", "hiddenempties", "calls", "kwexpr", "ltexpr"}
+var c17Families = []string{"lr", "lr2", "expr", "expr4", "mutual", "mutual3", "hidden", "brackets", "seplist", "rightrec", "exprparen", "tower4", "tower5", "tower6", "hiddenmany", "hiddensepby", "hiddenopts", "hidden2", "hiddenempties", "calls", "kwexpr", "ltexpr", "silentbrackets"}
 
 var towerOps = "%^&|+*"
 
@@ -200,6 +200,13 @@ func c17Parser(family string, variant int, limit *int) parsley.Parser {
 		}
 		h = memo(alt(combinator.SeqOf(prefix, &h, r('b')), r('a')))
 		return &h
+	case "silentbrackets": // S -> T | U ; T -> ( T ) | ( T ] | b (fails silently: SuppressError) ; U -> ( U ) | a
+		// every level asks for T on the next level twice: the silent failure of T (neither a result nor
+		// an error) has to be remembered like any other answer
+		var t, u parser.Func
+		t = memo(combinator.SuppressError(combinator.Any(wrap(combinator.SeqOf(r('('), &t, r(')'))), wrap(combinator.SeqOf(r('('), &t, r(']'))), r('b'))))
+		u = memo(first(wrap(combinator.SeqOf(r('('), &u, r(')'))), r('a')))
+		return alt(&t, &u)
 	case "brackets": // N -> ( N ) | [ N ] | a
 		var n parser.Func
 		n = memo(first(wrap(combinator.SeqOf(r('('), &n, r(')'))), wrap(combinator.SeqOf(r('['), &n, r(']'))), r('a')))
@@ -373,6 +380,17 @@ func c17ValidInput(family string, n int, shape int) string {
 			}
 		}
 		return sb.String()
+	case "silentbrackets":
+		k := n / 2
+		switch shape {
+		case 0:
+			return strings.Repeat("(", k) + "a" + strings.Repeat(")", k)
+		case 1:
+			return strings.Repeat("(", k) + "b" + strings.Repeat(")", k)
+		case 2:
+			return strings.Repeat("(", k) + "b" + strings.Repeat("]", k)
+		}
+		return strings.Repeat("(", k) + "b" + strings.Repeat(")]", k/2) + strings.Repeat("]", k%2)
 	case "seplist":
 		if shape%2 == 0 {
 			return "1" + strings.Repeat(",2", n/2)
@@ -489,7 +507,7 @@ func checkC17(ci interface{}, st *Stats) error {
 	default:
 		st.Class("ratio 9-16")
 	}
-	if c.N >= 24 && c.Family != "brackets" && c.Family != "seplist" && c.Family != "rightrec" {
+	if c.N >= 24 && c.Family != "brackets" && c.Family != "silentbrackets" && c.Family != "seplist" && c.Family != "rightrec" {
 		st.NonTrivial()
 	}
 	if c.Shape >= 4 {
